@@ -33,6 +33,10 @@ Full statement of the property on the model (`FullC11` below) and what is proved
                 apk keeps an element named after it when an identifier never comes with two names)
   exact list    one_element_per_apk_partial_embedded (embedded SBOMs without a target element allowed),
                 one_element_per_distinct_apk_partial (under exactly ¬F11a ∧ ¬F11c: header ++ one per distinct entry)
+  db of image   packages_from_installed_db (over the regenerated expression behind `s.Packages`), image_opts_list_installed_db
+                (every build, with or without base image: the generator is given base records ++ this build's),
+                base_image_one_element_per_db_record_partial; another source loses the base image's records:
+                unpacked_list_misses_base_records
   index         index_oracle_cases / index_oracle_passes_partial: the index oracle on the model's index document
   order         order_independent_partial: with ≤ 1 target element per embedded SBOM the result (document or
                 error) is the same for all map iteration orders; order_dependent_multi_target (F11d) negation
@@ -47,6 +51,8 @@ import Apko.Proofs.Lemmas.SbomVerdict
 import Apko.Proofs.Lemmas.SbomDriver
 import Apko.Proofs.Lemmas.SbomDedup
 import Apko.Proofs.Lemmas.SbomNamed
+import Apko.Proofs.Lemmas.GlueC11
+import Apko.Model.SbomInputs
 
 namespace Apko.C11
 open Apko Apko.Sbom
@@ -1001,5 +1007,75 @@ theorem index_duplicate_witness :
      | .ok d => indexOracle ⟨⟨"sha256".toList, "aa".toList⟩, [⟨"sha256".toList, "bb".toList⟩, ⟨"sha256".toList, "bb".toList⟩], []⟩ d
      | .error _ => none) = some "id-duplicate" := by
   decide
+
+/-! ## the package list is the installed database of the image that was built (base image included)
+
+`GenerateImageSBOM` (pkg/build/sbom.go) fills the generator options; `Generated.sbomImageInputs` lists where every
+field comes from (tie_glue_sbom_inputs in Lemmas/GlueC11), `Generated.sbomPackagesExpr` is the expression behind
+`s.Packages`.  Model of the build's database: `Apko/Model/SbomInputs.lean`.
+
+Full statement: for every build — with or without `contents.baseimage` — the document has exactly one element for every
+record of the installed database of the image (`b.baseDb ++ b.unpacked`).  Proved: the options carry exactly that list
+(`image_opts_list_installed_db`, no hypothesis); the element list under the hypotheses of `one_element_per_apk_partial`
+(`base_image_one_element_per_db_record_partial`; the unrestricted form is false already without base image: F11a, F11c).
+Taking the list from what this build unpacked instead violates the statement on every build with a non-empty base
+image whose names are not installed again (`unpacked_list_misses_base_records`). -/
+section ImageDb
+open SbomInputs
+
+/-- the expression GenerateImageSBOM takes the package list from reads the installed database of the file system
+that becomes the image — proved over the regenerated fact -/
+theorem packages_from_installed_db : sourceOf Generated.sbomPackagesExpr = .installedDb := by decide
+
+/-- for EVERY build the options handed to the generator exist and list the installed database of the image:
+the base image's records followed by what this build unpacked; digest and layers are the image's -/
+theorem image_opts_list_installed_db (b : Build) (dg : Text) (ls : List Text) (vcs osv : Text) :
+    ∃ o, imageOpts (sourceOf Generated.sbomPackagesExpr) b dg ls vcs osv = some o ∧
+      o.apks = b.baseDb ++ b.unpacked ∧ o.imageDigest = dg ∧ o.layers = ls := by
+  rw [packages_from_installed_db]
+  exact ⟨_, rfl, rfl, rfl, rfl⟩
+
+/-- **base_image_one_element_per_db_record_partial** — a build on top of any base image: without embedded SBOMs in
+the build's own file system and with distinct generated identifiers the package list is the header followed by one
+element per record of the image's installed database, base image first, with the record's name, version, checksum -/
+theorem base_image_one_element_per_db_record_partial {b : Build} {dg : Text} {ls : List Text} {vcs osv : Text}
+    {o : Opts} {fs : SbomDir} {ord : List Id → List Id} {d : Doc}
+    (ho : imageOpts (sourceOf Generated.sbomPackagesExpr) b dg ls vcs osv = some o)
+    (hl : ls ≠ []) (hn : NoEmbedded fs o) (hd : DistinctIds o) (h : generate o fs ord = .ok d) :
+    d.packages = (header o).packages ++
+      (b.baseDb ++ b.unpacked).map (fun a => ⟨apkId (nonceOf dg) a, a.name, a.version, [("SHA1".toList, a.checksum)]⟩) := by
+  obtain ⟨o2, ho2, ha, hdg, hls⟩ := image_opts_list_installed_db b dg ls vcs osv
+  rw [ho] at ho2
+  cases ho2
+  have := (one_element_per_apk_partial (hls ▸ hl) hn hd h).1
+  rw [ha, hdg] at this
+  exact this
+
+def exBuild : Build :=
+  ⟨[⟨"bi-core".toList, "1.0-r0".toList, "aa".toList⟩, ⟨"bi+".toList, "2".toList, "bb".toList⟩],
+   [⟨"tool".toList, "0.8.3-r3".toList, "cc".toList⟩]⟩
+
+example : ∃ o, imageOpts (sourceOf Generated.sbomPackagesExpr) exBuild "sha256:ab".toList ["sha256:cd".toList, "sha256:ef".toList] [] "unknown".toList = some o ∧
+    NoEmbedded [] o ∧ DistinctIds o ∧ exBuild.baseDb ≠ [] := by
+  refine ⟨_, by rw [packages_from_installed_db]; rfl, noEmbedded_of_B (by decide), by unfold DistinctIds; decide, by decide⟩
+
+/-- the other list a build context has at hand is not good enough: with the packages this build's installer reported,
+the document for `exBuild` has no element for the two records of the base image — the oracle, given the database of
+the image, answers `apk-element` -/
+theorem unpacked_list_misses_base_records :
+    (match imageOpts .unpacked exBuild "sha256:ab".toList ["sha256:cd".toList, "sha256:ef".toList] [] "unknown".toList,
+           imageOpts .installedDb exBuild "sha256:ab".toList ["sha256:cd".toList, "sha256:ef".toList] [] "unknown".toList with
+     | some ou, some oi => okAnd (generate ou [] id) (fun d =>
+         d.packages.map (·.name) == ["sha256:ab", "sha256:cd", "sha256:ef", "tool"].map String.toList &&
+         oracle oi [] d == some "apk-element")
+     | _, _ => false) = true := by
+  decide
+
+/-- the same document is what the oracle accepts when the image has no base (nothing but this build's records) -/
+theorem unpacked_list_fine_without_base (b : Build) (h : b.baseDb = []) :
+    b.listFrom .unpacked = b.listFrom .installedDb := by
+  simp [Build.listFrom, Build.installedDb, h]
+
+end ImageDb
 
 end Apko.C11
